@@ -554,6 +554,7 @@ func cmpscanMain(args []string) {
 	// every sort.* call site of the scanned packages
 	type site struct{ file, fn, call string }
 	var sites []site
+	var reps []c08RepSite
 	for _, pkg := range c08Pkgs {
 		for _, pf := range parseDir(fset, filepath.Join(root, pkg)) {
 			fname := filepath.Join(pkg, filepath.Base(fset.Position(pf.Pos()).Filename))
@@ -565,6 +566,9 @@ func cmpscanMain(args []string) {
 				fn := fd.Name.Name
 				if fd.Recv != nil && len(fd.Recv.List) == 1 {
 					fn = strings.TrimPrefix(exprText(fd.Recv.List[0].Type), "*") + "." + fn
+				}
+				for _, rs := range c08RepSorts(fd) {
+					reps = append(reps, c08RepSite{fname, fn, rs.slice, rs.order, rs.kind})
 				}
 				ast.Inspect(fd.Body, func(n ast.Node) bool {
 					if call, ok := n.(*ast.CallExpr); ok {
@@ -618,8 +622,147 @@ func cmpscanMain(args []string) {
 		}
 		fmt.Fprintf(&sb, "  (%s, %s, %s)", c08CoqStr(s.file), c08CoqStr(s.fn), c08CoqStr(s.call))
 	}
+	sb.WriteString("].\n\n")
+	// node-order sorts of slices: how the sorted slice was filled (see c08RepSorts)
+	sort.Slice(reps, func(i, j int) bool {
+		a, b := reps[i], reps[j]
+		if a.file != b.file {
+			return a.file < b.file
+		}
+		if a.fn != b.fn {
+			return a.fn < b.fn
+		}
+		if a.slice != b.slice {
+			return a.slice < b.slice
+		}
+		return a.order < b.order
+	})
+	sb.WriteString("Definition rep_sort_sites : list (string * string * string * string * string) := [\n")
+	for i, s := range reps {
+		if i > 0 {
+			sb.WriteString(";\n")
+		}
+		fmt.Fprintf(&sb, "  (%s, %s, %s, %s, %s)", c08CoqStr(s.file), c08CoqStr(s.fn), c08CoqStr(s.slice), c08CoqStr(s.order), c08CoqStr(s.kind))
+	}
 	sb.WriteString("].\n")
 	writeOut(args, sb.String())
+}
+
+// c08RepSite: a call `X.Sort(<NodeOrder>)` and how X was filled.
+type c08RepSite struct{ file, fn, slice, order, kind string }
+
+// c08RepSorts finds the node-order sorts of a function and classifies the sorted slice:
+//
+//	"rep:<key>"  X receives ONE node per group -- `if M[K] == nil { X = append(X, n) }` or
+//	             `if !M[K] { ... }` -- the first node of the group in iteration order (which may be map
+//	             order); <key> is K with the node variable removed (".Info.File").  The order of the
+//	             groups is then well defined only if the comparator separates two groups on <key> alone.
+//	"all"        X receives every node of a loop (possibly filtered by `continue`): a plain collection.
+//	"given"      X is not filled in this function (parameter, field, result of a call).
+//	"cond:<c>"   X is filled under some other condition: not understood, must be classified by hand.
+func c08RepSorts(fd *ast.FuncDecl) []c08RepSite {
+	var out []c08RepSite
+	ast.Inspect(fd.Body, func(n ast.Node) bool {
+		call, ok := n.(*ast.CallExpr)
+		if !ok || len(call.Args) != 1 {
+			return true
+		}
+		sel, ok := call.Fun.(*ast.SelectorExpr)
+		if !ok || sel.Sel.Name != "Sort" || !strings.HasSuffix(lastName(call.Args[0]), "Order") {
+			return true
+		}
+		x := exprText(sel.X)
+		kind := "given"
+		if _, isIdent := sel.X.(*ast.Ident); isIdent {
+			kinds := map[string]bool{}
+			var walk func(n ast.Node, cond ast.Expr)
+			walk = func(n ast.Node, cond ast.Expr) {
+				switch s := n.(type) {
+				case *ast.IfStmt:
+					if s.Init != nil {
+						walk(s.Init, cond)
+					}
+					walk(s.Body, s.Cond)
+					if s.Else != nil {
+						walk(s.Else, &ast.UnaryExpr{Op: token.NOT, X: &ast.ParenExpr{X: s.Cond}})
+					}
+					return
+				case *ast.ForStmt:
+					walk(s.Body, nil)
+					return
+				case *ast.RangeStmt:
+					walk(s.Body, nil)
+					return
+				case *ast.FuncLit:
+					walk(s.Body, nil)
+					return
+				case *ast.BlockStmt:
+					for _, st := range s.List {
+						walk(st, cond)
+					}
+					return
+				case *ast.SwitchStmt, *ast.TypeSwitchStmt, *ast.SelectStmt, *ast.CaseClause, *ast.CommClause, *ast.LabeledStmt:
+					ast.Inspect(s, func(m ast.Node) bool {
+						if as, ok := m.(*ast.AssignStmt); ok && m != n {
+							walk(as, ast.NewIdent("switch"))
+							return false
+						}
+						return true
+					})
+					return
+				case *ast.AssignStmt:
+					if len(s.Lhs) != 1 || len(s.Rhs) != 1 || exprText(s.Lhs[0]) != x {
+						return
+					}
+					ap, ok := s.Rhs[0].(*ast.CallExpr)
+					if !ok || exprText(ap.Fun) != "append" || len(ap.Args) < 2 || exprText(ap.Args[0]) != x {
+						if s.Tok == token.DEFINE || exprText(s.Rhs[0]) == "nil" {
+							return // declaration / reset
+						}
+						kinds["cond:assigned from "+exprText(s.Rhs[0])] = true
+						return
+					}
+					if cond == nil {
+						kinds["all"] = true
+						return
+					}
+					elem := exprText(ap.Args[1])
+					var idx *ast.IndexExpr
+					switch c := cond.(type) {
+					case *ast.BinaryExpr:
+						if c.Op == token.EQL && exprText(c.Y) == "nil" {
+							idx, _ = c.X.(*ast.IndexExpr)
+						}
+					case *ast.UnaryExpr:
+						if c.Op == token.NOT {
+							idx, _ = c.X.(*ast.IndexExpr)
+						}
+					}
+					if idx != nil && len(ap.Args) == 2 && strings.HasPrefix(exprText(idx.Index), elem+".") {
+						kinds["rep:"+strings.TrimPrefix(exprText(idx.Index), elem)] = true
+					} else {
+						kinds["cond:"+exprText(cond)] = true
+					}
+				}
+			}
+			walk(fd.Body, nil)
+			if len(kinds) == 1 {
+				for k := range kinds {
+					kind = k
+				}
+			} else if len(kinds) > 1 {
+				var ks []string
+				for k := range kinds {
+					ks = append(ks, k)
+				}
+				sort.Strings(ks)
+				kind = "cond:mixed " + strings.Join(ks, " | ")
+			}
+		}
+		out = append(out, c08RepSite{slice: x, order: lastName(call.Args[0]), kind: kind})
+		return true
+	})
+	return out
 }
 
 func writeOut(args []string, s string) {
